@@ -598,6 +598,7 @@ class Program:
         self.by_name = {}
         self.by_short = {}
         self.closures = {}       # "{closure@span}" -> Function
+        self.simple_consts = {}  # `const NAME: T = const VALUE;`
         self.consts = {}         # constants / statics / promoteds with MIR bodies
         self._index(text)
 
@@ -620,6 +621,12 @@ class Program:
                 f.is_const = True
                 self.consts[name] = f
                 i = j + 1
+                continue
+            if ln.startswith('const ') and ln.rstrip().endswith(';') and ' = const ' in ln:
+                head = ln[6:].rstrip()[:-1]
+                k = _find_top(head, ': ')
+                self.simple_consts[head[:k]] = head.split(' = const ', 1)[1].strip()
+                i += 1
                 continue
             if ln.startswith('fn '):
                 j = i
